@@ -345,3 +345,64 @@ class SimLock:
         # never pre-empt with an exception in flight differently: same path
         self.release()
         return False
+
+
+class SimRLock(SimLock):
+    """Re-entrant variant (stands in for threading.RLock)."""
+
+    def __init__(self):
+        super().__init__()
+        self.count = 0
+
+    def acquire(self, blocking=True, timeout=-1):
+        sim = SimLock.sim
+        me = sim.cur if sim is not None and sim.cur is not None else "outside"
+        if self.owner is me and self.owner is not None:
+            self.count += 1
+            return True
+        ok = super().acquire(blocking, timeout)
+        if ok:
+            self.count = 1
+        return ok
+
+    def release(self):
+        if self.count > 1:
+            self.count -= 1
+            return
+        self.count = 0
+        super().release()
+
+
+_REAL_LOCK = type(threading.Lock())
+_REAL_RLOCK = type(threading.RLock())
+
+
+def simulate_locks(obj):
+    """Replace every real lock reachable as an attribute of `obj` or of its classes by a simulated one
+    (same sharing: a lock kept on a class stays one lock for all instances).  Returns what to pass to
+    restore_locks().  Code under test that creates its lock at import time, or keeps it on the class,
+    would otherwise block a baton-holding thread for real."""
+    undo = []
+    holders = [obj] + [k for k in type(obj).__mro__ if k is not object]
+    for h in holders:
+        try:
+            items = list(vars(h).items())
+        except TypeError:
+            continue
+        for name, val in items:
+            new = SimRLock() if isinstance(val, _REAL_RLOCK) else SimLock() if isinstance(val, _REAL_LOCK) else None
+            if new is not None:
+                try:
+                    setattr(h, name, new)
+                    undo.append((h, name, val))
+                except (AttributeError, TypeError):
+                    pass
+    return undo
+
+
+def restore_locks(undo):
+    for h, name, val in undo:
+        try:
+            setattr(h, name, val)
+        except (AttributeError, TypeError):
+            pass
